@@ -61,10 +61,10 @@ def whereCond (lt : LinkType) (t : Table) (l r : Nat) : Bool :=
   | .twoDatasetLinkOnly => true
 
 def minSd (t : Table) : Nat := (List.range t.m).foldl (fun a i => min a (t.sd i)) (t.sd 0)
-def maxSd (t : Table) : Nat := (List.range t.m).foldl (fun a i => max a (t.sd i)) (t.sd 0)
 
 /-- Left input of the join (`…_left` = rows of the minimum source dataset for
-`two_dataset_link_only`, the whole table otherwise). -/
+`two_dataset_link_only`, the whole table otherwise); `…_right` = the rows that
+are not in the left table. -/
 def leftTable (lt : LinkType) (t : Table) : List Nat :=
   match lt with
   | .twoDatasetLinkOnly => (List.range t.m).filter fun i => t.sd i == minSd t
@@ -72,7 +72,7 @@ def leftTable (lt : LinkType) (t : Table) : List Nat :=
 
 def rightTable (lt : LinkType) (t : Table) : List Nat :=
   match lt with
-  | .twoDatasetLinkOnly => (List.range t.m).filter fun i => t.sd i == maxSd t
+  | .twoDatasetLinkOnly => (List.range t.m).filter fun i => t.sd i != minSd t
   | _ => List.range t.m
 
 /-- A preceding rule together with its materialised id-pair table (used only
